@@ -364,6 +364,10 @@ def ground_arith_cases(sh):
     return out
 
 
+EXTREME_STRINGS = ["7", "007", "18446744073709551617", "+1", "-1", " 1", "1 ", "1_0", "1.0", "0x1", "\u0663", "1\u0663",
+                   "\u0967\u0968", "\uff11", "\U0001d7d1", "\u00e9", "a\u00e9b", "\U0001f600", "x\U0001f600y", "\u00b2", "\u2460"]
+
+
 def ground_string_cases(sh):
     """ground string operators: every small integer offset / length (negative, zero, past the end) on a few
     strings, alone and under an enclosing str.len / equality"""
@@ -402,6 +406,18 @@ def ground_string_cases(sh):
             emit("strPrefixOf", m.StrPrefixOf(m.String(st), m.String(t)), False)
             emit("strSuffixOf", m.StrSuffixOf(m.String(st), m.String(t)), False)
             emit("strContains", m.StrContains(m.String(st), m.String(t)), False)
+    # conversions: only ASCII digits are digits for str.to_int (SMT-LIB); signs, blanks, underscores, other scripts'
+    # decimal digits, leading zeros, numbers beyond 2**64; and operators on non-ASCII / astral-plane strings
+    for st in EXTREME_STRINGS:
+        emit("strToInt", m.StrToInt(m.String(st)), False)
+        emit("strToInt", m.LT(m.StrToInt(m.String(st)), m.Int(0)), False)
+        emit("strLength", m.StrLength(m.String(st)), False)
+        emit("strCharAt", m.StrCharAt(m.String(st), m.Int(1)), True)
+        emit("strConcat", m.StrConcat(m.String(st), m.String("a"), m.String(st)), True)
+        emit("strIndexOf", m.StrIndexOf(m.String(st + "a" + st), m.String("a"), m.Int(0)), False)
+    for n in (0, 7, -1, -12, 10 ** 20 + 3, 2 ** 64, -(2 ** 64)):
+        emit("intToStr", m.IntToStr(m.Int(n)), True)
+        emit("strToInt", m.StrToInt(m.IntToStr(m.Int(n))), False)
     return out
 
 
